@@ -287,6 +287,17 @@ func finish(c TypesCase, o typesOutcome) vrt.Verdict {
 }
 
 func buildCase(c TypesCase) (T, pt reflect.Type, tmpl reflect.Value, v *vrt.Verdict) {
+	if hangSeen.Load() {
+		d := vrt.OK(false, "skipped-after-hang")
+		return nil, nil, reflect.Value{}, &d
+	}
+	if js, jerr := json.Marshal(c); jerr == nil {
+		currentCase.Store(js)
+		currentCheck.Store("C16.types-" + map[string]string{"env": "env", "flag": "flag", "pflag": "pflag", "manglers": "manglers"}[c.Source])
+		if c.Source == "json" || c.Source == "yaml" || c.Source == "toml" || c.Source == "cue" {
+			currentCheck.Store("C16.types-decoders")
+		}
+	}
 	T, err := c.Shape.Build()
 	if err != nil {
 		d := vrt.Discardf("shape does not build: %v", err)
@@ -351,8 +362,8 @@ func runTypesEnv(c TypesCase) vrt.Verdict {
 	}()
 	var got reflect.Value
 	var err error
-	pi, hung := guard(func() { got, err = (&env.Source{}).Value(context.Background(), dials.NewType(pt)) })
 	what := fmt.Sprintf("env source on %s with %v", pt, vars)
+	pi, hung := guard(what, func() { got, err = (&env.Source{}).Value(context.Background(), dials.NewType(pt)) })
 	o.viol, o.isErr = judge(what, pi, hung, got, err, pt)
 	if o.viol == nil && !o.isErr && countSet(got) >= o.fed && o.fed > 0 {
 		o.labels = append(o.labels, "all-fed-arrived")
@@ -389,7 +400,7 @@ func runTypesFlag(c TypesCase) vrt.Verdict {
 	var err error
 	var args []string
 	stage := "NewSetWithArgs"
-	pi, hung := guard(func() {
+	pi, hung := guard(fmt.Sprintf("%s source on %s", c.Source, pt), func() {
 		var registered func(string) bool
 		var value func() (reflect.Value, error)
 		if c.Source == "flag" {
@@ -548,7 +559,7 @@ func runTypesDecoder(c TypesCase) vrt.Verdict {
 	}
 	var got reflect.Value
 	var err error
-	pi, hung := guard(func() { got, err = dec.Decode(strings.NewReader(""), dials.NewType(pt)) })
+	pi, hung := guard(fmt.Sprintf("%s decoder (chain %s) on %s", c.Source, c.Chain, pt), func() { got, err = dec.Decode(strings.NewReader(""), dials.NewType(pt)) })
 	var o typesOutcome
 	o.fed = f.fed
 	what := fmt.Sprintf("%s decoder (chain %s) on %s with input %q", c.Source, c.Chain, pt, clipBytes(f.text))
@@ -605,7 +616,7 @@ func runTypesManglers(c TypesCase) vrt.Verdict {
 	var err error
 	var o typesOutcome
 	stage := "Translate"
-	pi, hung := guard(func() {
+	pi, hung := guard(fmt.Sprintf("mangler chain %s on %s", c.Chain, pt), func() {
 		tf := transform.NewTransformer(pt, ms...)
 		var mv reflect.Value
 		mv, err = tf.Translate()
